@@ -3,16 +3,14 @@
     (Parse/GrammarSpec.v); the model of the generated parser and its rule actions is [parse_tokens]
     (Parse/Grammar.v), tied to the real parser by the token tap (delivered tokens, returned AST).
     The lexing half (source text to tokens) is decided by the correspondence check, not proved. *)
-From GoSh Require Import Base.Bytes Parse.Skel Parse.Grammar Parse.GrammarSpec Parse.GrammarSound Parse.GrammarFuel Parse.GrammarComplete.
+From GoSh Require Import Base.Bytes Parse.Skel Parse.Grammar Parse.GrammarSpec Parse.GrammarSound Parse.GrammarFuel Parse.GrammarComplete Parse.GrammarBudget.
 
 (** Every program the grammar derives is accepted, all of its tokens are consumed, and the skeleton
     of the tree built is the one the derivation builds: commands, operators, words, redirections in
-    source order.  (The alternative is an exhausted recursion budget, never observed: the
-    correspondence check reports it.) *)
+    source order.  (The recursion budget of the model always suffices: Parse/GrammarBudget.v.) *)
 Theorem C02_grammatical_programs_accepted :
-  forall ts hs sk hs', G_program ts hs sk hs' ->
-    parse_tokens ts hs = POk sk [] hs' \/ parse_tokens ts hs = PFuel.
-Proof. exact parse_tokens_complete. Qed.
+  forall ts hs sk hs', G_program ts hs sk hs' -> parse_tokens ts hs = POk sk [] hs'.
+Proof. exact parse_tokens_accepts. Qed.
 Print Assumptions C02_grammatical_programs_accepted.
 
 (** Conversely the tree that is built always mirrors a derivation of exactly the tokens received. *)
@@ -23,13 +21,15 @@ Print Assumptions C02_tree_mirrors_a_derivation.
 
 (** All derivations of a token sequence build the same skeleton: the grammar is unambiguous up to the tree. *)
 Theorem C02_skeleton_unique :
-  forall ts hs sk1 hs1 sk2 hs2, G_program ts hs sk1 hs1 -> G_program ts hs sk2 hs2 ->
-    parse_tokens ts hs <> PFuel -> sk1 = sk2 /\ hs1 = hs2.
-Proof. exact skeleton_unique. Qed.
+  forall ts hs sk1 hs1 sk2 hs2, G_program ts hs sk1 hs1 -> G_program ts hs sk2 hs2 -> sk1 = sk2 /\ hs1 = hs2.
+Proof. exact skeleton_unique'. Qed.
 Print Assumptions C02_skeleton_unique.
 
-(** The recursion budget never changes an answer that was reached. *)
-Theorem C02_budget_only_decides_termination :
-  forall n m acc ts hs, (n <= m)%nat -> p_term n acc ts hs = PFuel \/ p_term n acc ts hs = p_term m acc ts hs.
-Proof. exact p_term_stable. Qed.
-Print Assumptions C02_budget_only_decides_termination.
+(** The parser model always answers: a token sequence is accepted with a derivation of exactly its
+    tokens, or rejected and then it is no program of the grammar; it never runs out of budget. *)
+Theorem C02_parser_decides_the_grammar :
+  forall ts hs,
+    (exists sk hs', parse_tokens ts hs = POk sk [] hs' /\ G_program ts hs sk hs') \/
+    (exists e, parse_tokens ts hs = PErr e /\ forall sk hs', ~ G_program ts hs sk hs').
+Proof. exact parse_tokens_decides. Qed.
+Print Assumptions C02_parser_decides_the_grammar.
